@@ -419,6 +419,13 @@ class Parser:
     @override_docstring(r_calculation_expression_divide)
     def p_calculation_expression_divide(self, p: P) -> None:
         # NOTE: Both sides are integers and we output an integer too.
+        if p[3] == 0:
+            raise CalculationExpressionError(
+                message="Division by zero in calculation expression.",
+                filepath=self.current_filepath(),
+                token=str(p[3]),
+                lineno=p.lineno(2),
+            )
         p[0] = int(p[1] // p[3])
 
     @override_docstring(r_calculation_expression_group)
